@@ -245,7 +245,10 @@ def run(tier):
         for how in ("append", "setitem", "del", "clear"):
             a = DL([v1, v1], "x", _generated=gen.GEN, _source="s")
             old = DL([v1, v1], "x", _generated=gen.GEN, _source="s")
-            hash(a), a == old, a._pack(), hash(GroupedRecord("g/m", [a]))
+            try:
+                hash(a), a == old, a._pack(), hash(GroupedRecord("g/m", [a]))      # priming only: what these calls leave behind is the point
+            except Exception:
+                pass
             elem = a.f[0].__class__(v2)          # of the element type: a raw value appended to the list is not converted (unspecified pair)
             if how == "append":
                 a.f.append(elem); now = [v1, v1, v2]
